@@ -110,6 +110,39 @@ def check_escape(facts):
         if len(vars_) != 1 or others or (pushes and pushes[-1][0] != "var") or pushes.count(("lit", 92)) > 1:
             push_ok = False
             why = "arm at line %s pushes %s" % (a["line"], pushes)
+    if not E:
+        # `let needs_escape = matches!(c, '\\' | '^' | ..); if needs_escape { push('\\') } push(c);` — the classifying match
+        # yields booleans, one `if` on that value pushes the backslash, and the character itself is pushed once outside it
+        m0 = ms[0]
+        def _is_bool(n, v):
+            n = n if n.get("k") != "block" or n.get("stmts") else n.get("expr", n)
+            return n.get("k") == "lit" and n.get("t") == "bool" and bool(n.get("v")) == v
+        true_arms = [a for a in m0["arms"] if _is_bool(a["body"], True)]
+        false_arms = [a for a in m0["arms"] if _is_bool(a["body"], False)]
+        if true_arms and len(true_arms) + len(false_arms) == len(m0["arms"]):
+            cand, bad_range = set(), False
+            for a in true_arms:
+                lits, ranges = char_lits(a["pat"])
+                cand |= lits
+                bad_range = bad_range or bool(ranges)
+            allp = []
+
+            def visit2(n, ps):
+                if n.get("k") == "mcall" and n.get("name") in ("push", "push_str", "insert", "extend"):
+                    arg = n["args"][0] if n["args"] else {}
+                    arg = arg if arg.get("k") != "addrof" else arg["e"]
+                    kind = ("lit", arg.get("v")) if arg.get("k") == "lit" else (
+                        ("var", arg["res"]["name"]) if arg.get("k") == "path" and arg.get("res", {}).get("r") == "local" else ("other", None))
+                    under_if = [q for q in ps if q.get("k") == "if" and q.get("cond", {}).get("k") not in ("let", "letexpr")]
+                    allp.append((kind, len(under_if)))
+            core.hir_walk(he["body"], visit2)
+            bs = [p_ for p_ in allp if p_[0] == ("lit", 92)]
+            vs = [p_ for p_ in allp if p_[0][0] == "var"]
+            rest = [p_ for p_ in allp if p_ not in bs and p_ not in vs]
+            if len(bs) == 1 and bs[0][1] == 1 and len(vs) == 1 and vs[0][1] == 0 and not rest and not bad_range and allp.index(bs[0]) < allp.index(vs[0]):
+                E = cand
+                push_ok = True
+                why = None
     if push_ok:
         r.ok("escape pushes each character exactly once, preceded at most by a backslash")
     else:
